@@ -239,7 +239,8 @@ def check_program(head):
     a, b = frac.split("/")
     info["singles"] = int(b)
     if a != b:
-        bad.append(("program result differs when optimize is injected once", "at step " + first[:400]))
+        bad.append(("program result differs when optimize is injected once",
+                    "at step " + (first if len(first) < 500 else first[:250] + " ... " + first[-200:])))
     return bad, info
 
 
@@ -591,6 +592,13 @@ def gen_expr(r, depth):
     return "({ $.n < %d ?> ^~ :n = $.n + 1 :acc = ($.acc, $.n) } <~ :n = 0 :acc = %s)" % (r.randrange(1, 5), e())
 
 
+def nested_self_pairs(n):
+    src = "1"
+    for _ in range(n):
+        src = "({ $ = $ } <~ %s)" % src
+    return src
+
+
 FIXED_PROGRAMS = [
     "5 + 6",
     "{ $.count < 3 ?> ^~ :count = $.count + 1 :result = $.result * 2 } <~ :count = 0 :result = 1\n\n$.result = 8",
@@ -605,6 +613,8 @@ FIXED_PROGRAMS = [
     "{ ($ + 1, { ($ * 2, { ($, \"ab\" <> \"cd\", :k = $) } <~ $ + 7) } <~ $ + 3, $) } <~ 4",
     "{ (:a = $, :b = { (:c = $, :d = ($, $)) } <~ ($, 1)).b.d } <~ (1, 2, 3)",
     "{ $ + 1 } ~ 5\n\n$ ~~",
+    # finding C19-K1 in a running program: eleven levels of `x = x`; one compaction at the last step boundary fails
+    nested_self_pairs(11),
 ]
 
 
@@ -700,10 +710,20 @@ def evaluate(lines, v, stats, listed, samples):
             stats["prog_end:" + info["end"]] = stats.get("prog_end:" + info["end"], 0) + 1
             stats["program_steps"] += info["steps"]
             stats["program_injections"] += info["every_calls"] + info["twice_calls"] + info["rooted_calls"] + info["singles"]
+            k1 = 0
             for rs in recs[1:]:
                 rec = parse_record(rs)
+                if rec["res"].startswith("Err"):
+                    fid = classify("O", rec, "")
+                    if fid and fid in listed:
+                        k1 += 1
+                        v.known_hit(fid, "%s -> %s at a step boundary" % (case[:200], rec["res"]))
+                    continue
                 for what, detail in check_opt(rec):
                     bad.append((what, detail))
+            if k1:
+                # failures of the injected call that are instances of the listed finding
+                bad = [(w, d) for (w, d) in bad if "OPTERR:CloneLimit" not in d and not d.rstrip().endswith("OPTERR:CloneLimit")]
             for what, detail in bad:
                 stats["violations"] += 1
                 v.violation(component="optimize", input=case, what=what, detail=detail[:1500],
